@@ -131,14 +131,17 @@ def run_fitfile(case, ctx):
         # the object interface
         with must_succeed('Fitter()'), quiet():
             fitter = Fitter(fnames, aps, mdir, extinction_law=law, av_range=list(case['av_range']), distance_range=drq)
-        expected = []
-        for i in eligible:
+        # the object interface is driven in REVERSE input order: a record must not depend on which sources were fitted
+        # before it (fit() re-uses one fitter for the whole data file)
+        expected = {}
+        for i in reversed(eligible):
             with must_succeed('Fitter.fit / keep'), quiet():
                 info = fitter.fit(Source.from_ascii(lines[i]))
                 if not case['output_convolved']:
                     info.model_fluxes = None
                 info.keep(tuple(case['selector']))
-            expected.append(fg.snapshot(info))
+            expected[i] = fg.snapshot(info)
+        expected = [expected[i] for i in eligible]
         with must_succeed('reading the fit output file'):
             got, meta = fg.read_fit_file(output)
         got_names = [g.source.name for g in got]
